@@ -798,6 +798,9 @@ def clause_g(c: Check):
                 if any(is_out(a) for a in args):
                     if is_writer_name(attr):
                         continue   # delegation to another text writer: its own obligation
+                    cd = e.data.get('callee')
+                    if isinstance(cd, External) and not cd.dotted.startswith(('subprocess.', 'os.')):
+                        continue   # a library function that writes through the file object (print, copyfileobj ...)
                     n_hand_over += 1
                     c.expect(flushed, 'C10-g', 'flush-before-hand-over/%s' % f.key,
                              '%s hands its output file to %s without flushing it first: text written to the file '
